@@ -1,4 +1,5 @@
 import ElaVerif.Model.WireDriver
+import ElaVerif.Model.WalletCont
 import ElaVerif.Lemmas.WireTokens
 import ElaVerif.Gen.C23
 /-
@@ -8,6 +9,7 @@ import ElaVerif.Gen.C23
   dynamic dispatch outside a list element have no decodable schema and are answered `unmodelled`.
 
     mpsnap <tx hex> …            → live <n> snap <n>
+    wcont <N> <k> <h>:<tx hex> … → dflt <h|none> coins <n> owned <m>      (Model/WalletCont.lean)
     ckpt <type> <hex> <digest>   → ok <consumed> <sha256d(re-encoding of the decoded value)> | err | unmodelled
     ckpt <type> <hex> -          → ok <consumed> <sha256d(the consumed bytes)> | err      (damaged file)
 -/
@@ -74,6 +76,7 @@ def stepMpSnap (txs : List String) : String :=
 
 def step : List String → String
   | "mpsnap" :: txs => stepMpSnap txs
+  | "wcont" :: args => WalletCont.stepWCont args
   | "ckpt" :: name :: hex :: more =>
     match schemaOf name, hexBytes? hex with
     | some ty, some bs =>
